@@ -755,12 +755,15 @@ class PandasModelBase(
                     assert len(opk.op) > 1
                     assert opk.op[0] == "_"
                     zero_op = opk.op[1:]
-                    if zero_op in {"row_number", "count"}:
+                    if (zero_op == "row_number") or (
+                        (zero_op == "count") and (len(op.order_by) > 0)
+                    ):
                         subframe[k] = opframe.cumcount() + 1
                     elif zero_op in {"ngroup"}:
                         subframe[k] = opframe.ngroup()
-                    elif zero_op in {"size"}:
-                        transform_op = zero_op
+                    elif zero_op in {"size", "count"}:
+                        # an un-ordered _count() is the number of rows of the partition
+                        transform_op = "size"
                         try:
                             transform_op = self.transform_op_map[transform_op]
                         except KeyError:
